@@ -453,6 +453,27 @@ def check(chk):
 
     from sa.helpers import setting_value_source
     setting_value_source(chk, "TABLE-10")
+    # free play or credit play is the operator's *setting*: the configured `free_play` is only its default.  The config value is read at one
+    # place - as the default handed to add_setting - and every decision between free and paid play asks the settings controller.  (A handler
+    # that asks the config charges nothing on a machine whose default is free play but which the operator switched to credit play, while the
+    # start gate - which asks the setting - still demands the price: one credit buys any number of games.)
+    cfg_reads, live_reads = [], []
+    for m_ in cr.methods.values():
+        for x in walk_local(m_.node):
+            if isinstance(x, ast.Subscript) and isinstance(x.ctx, ast.Load) and src(x.value) == "self.credits_config" and const_value(x.slice) == "free_play":
+                inside_add = any(isinstance(c, ast.Call) and call_attr(c) in ("add_setting", "SettingEntry") and any(y is x for y in ast.walk(c)) for c in m_.calls())
+                cfg_reads.append((m_, x, inside_add))
+            if isinstance(x, ast.Call) and call_attr(x) == "get_setting_value" and x.args and const_value(x.args[0]) == "free_play":
+                live_reads.append((m_, x))
+    for m_, x, inside_add in cfg_reads:
+        chk.ob("TABLE-10", "the configured free_play is only the default of the operator setting (read in add_setting, nowhere else)", inside_add, m_.where(x),
+               detail="%s decides from the configuration instead of the live setting" % m_.qualname if not inside_add else "", construct=m_.ident,
+               text="configured free_play read in " + m_.name)
+    chk.ob("TABLE-10", "the free_play default is registered as a setting", any(a for _, _, a in cfg_reads), cr.where(), construct=cr.ident, text="free_play setting registered")
+    deciders = {m_.name for m_, _ in live_reads}
+    want_dec = {"mode_start", "_player_added", "_update_credit_strings"}
+    chk.ob("TABLE-10", "starting the mode, charging a new player and the credit strings decide free / paid play from the live setting",
+           want_dec <= deciders, cr.where(), detail="live setting read in %s" % sorted(deciders), construct=cr.ident, text="free_play deciders")
 
     # ------------------------------------------------------------ FLAG-20: the once-per-game tier reset
     # the tier progress restarts when a game starts (unconditionally) and once more when player 1 starts ball 2; the "done this game" flag
@@ -511,6 +532,7 @@ def check(chk):
 def battery():
     from sa.battery import M
     return [
+        M("new player charged according to the configured default", CR, "    def _player_added(self, **kwargs):\n        del kwargs\n        if self.machine.settings.get_setting_value('free_play'):", "    def _player_added(self, **kwargs):\n        del kwargs\n        if self.credits_config['free_play']:", "TABLE-10"),
         M("cap overwritten by total", CR, "            self.machine.variables.set_machine_var('credit_units', max_credit_units)\n            total_credit_units = max_credit_units\n", "            self.machine.variables.set_machine_var('credit_units', max_credit_units)\n", "BOUND-2"),
         M("cap test off by one game", CR, "        if max_credit_units and total_credit_units > max_credit_units:", "        if max_credit_units and total_credit_units > max_credit_units + self.credit_units_per_game:", "BOUND-2"),
         M("negative balance after charge", CR, "            if new_credit_units < 0:\n                self.warning_log(\"Somehow credit units went below 0?!? Resetting \"\n                                 \"to 0.\")\n                new_credit_units = 0\n", "", "BOUND-2"),
